@@ -20,6 +20,7 @@ import math
 
 SIGNIFICANT = 1e-25  # masses below are not compared (float32 underflow region of the library)
 BOUNDARY_MIN = 1e-30  # a pruning boundary below this mass cannot influence significant masses
+PRUNE_MIN = 1e-35  # dropping candidates lighter than this is not "pruning" (cannot change a significant mass)
 
 
 def softmax(row):
@@ -133,18 +134,22 @@ def alpha_mass(label, frames, ext):
 
 
 class BeamResult:
-    __slots__ = ("final", "steps", "tie", "pruned_positive", "insignificant_boundary", "max_cands")
+    __slots__ = ("final", "steps", "tie", "pruned_positive", "insignificant_boundary", "max_cands",
+                 "history", "min_cands_late", "tie_step")
 
     def __init__(self):
         self.final = []  # [(prefix, nb, b)] best first
         self.steps = []  # per frame: dict prefix -> (nb, b) of the kept beam
         self.tie = False  # a (near-)tie of positive masses sat on a pruning boundary
+        self.tie_step = None  # first frame at which that happened
         self.pruned_positive = False  # some candidate of positive mass was dropped
         self.insignificant_boundary = False
         self.max_cands = 0  # largest number of positive-mass candidates at a step
+        self.min_cands_late = None  # smallest number of positive-mass candidates at a step >= 2
+        self.history = []  # per frame (merges of positive mass, pruned?, positive candidates)
 
 
-def prefix_beam(frames, width, ext, tie_rel=1e-4):
+def prefix_beam(frames, width, ext, tie_rel=1e-4, tie_abs=0.0):
     res = BeamResult()
     beam = {(): (0.0, 1.0)}
     for t in range(len(frames)):
@@ -158,6 +163,7 @@ def prefix_beam(frames, width, ext, tie_rel=1e-4):
             else:
                 nxt[key] = (cur[0] + nb, cur[1] + b)
 
+        merges = 0
         for prefix, (nb, b) in beam.items():
             tot = nb + b
             add(prefix, 0.0, tot * pb)
@@ -166,16 +172,24 @@ def prefix_beam(frames, width, ext, tie_rel=1e-4):
             e = ext(prefix, t)
             for v in range(len(p)):
                 src = b if (prefix and prefix[-1] == v) else tot
+                if src * e[v] > 0.0 and (prefix + (v,)) in beam:
+                    merges += 1
                 add(prefix + (v,), src * e[v], 0.0)
         cands = sorted(((nb + b, k) for k, (nb, b) in nxt.items() if nb + b > 0.0), reverse=True)
         res.max_cands = max(res.max_cands, len(cands))
+        if t >= 1 and (res.min_cands_late is None or len(cands) < res.min_cands_late):
+            res.min_cands_late = len(cands)
+        res.history.append((merges, len(cands) > width, len(cands)))
         if len(cands) > width:
-            res.pruned_positive = True
+            if cands[width][0] > PRUNE_MIN:
+                res.pruned_positive = True
             lo, hi = cands[width][0], cands[width - 1][0]
             if hi <= BOUNDARY_MIN:
                 res.insignificant_boundary = True
-            elif lo >= hi * (1.0 - tie_rel):
+            elif lo >= hi * (1.0 - tie_rel) - tie_abs:
                 res.tie = True
+                if res.tie_step is None:
+                    res.tie_step = t
             cands = cands[:width]
         beam = {k: nxt[k] for _, k in cands}
         res.steps.append(dict(beam))
